@@ -88,6 +88,10 @@ pub fn pools() -> &'static Pools {
         for i in 0..12 {
             fq12_vals.push(format!("seed:{}", i + 1));
         }
+        // whole halves / thirds zero: c1 == 0, c0 == 0, one Fq6 coefficient zero, only the Fq2 "real parts"
+        for m in [0x03f, 0xfc0, 0xff3, 0x3cf, 0x555, 0xaaa, 0xffe] {
+            fq12_vals.push(format!("mask:{}", m));
+        }
 
         // crafted on-curve points outside the subgroup, through public API only:
         // a compressed encoding of a small x decodes unchecked iff x^3+b is a square
